@@ -24,11 +24,11 @@ Proof. exact time_roundtrip. Qed.
 (* the reference decoder reads the reference encoding back, for every schema of the feature set, every
    well-typed value (msg/rt typing: Go ranges, at most one member per oneof, distinct map keys, captured bytes
    as UnrecognizedFields stores them), any size and nesting depth *)
-Theorem C03_reference_round_trip : forall s g idx fs un m, rt_applies s = true -> nth_error s idx = Some m -> rt_ok g s idx fs un = true ->
+Theorem C03_reference_round_trip : forall s g idx fs un m, rt_applies_at s idx = true -> nth_error s idx = Some m -> rt_ok g s idx fs un = true ->
   bytes_ok (ref_encode g s idx fs un) /\
   forall G, (length (ref_encode g s idx fs un) < G)%nat ->
     ref_decode G s idx (ref_encode g s idx fs un) (zero_fields s m, []) = Some (norm_fields g s idx fs, un).
-Proof. exact ref_round_trip. Qed.
+Proof. exact ref_round_trip_at. Qed.
 
 (* C03 for generated code: Marshal succeeds and Unmarshal of its output into a fresh message returns no error
    and the message itself - every scalar bit for bit, presence, oneof selection, repeated order, nested messages,
@@ -36,15 +36,16 @@ Proof. exact ref_round_trip. Qed.
    time.Time and zero/nil time elements are not written; a nil element of a repeated message comes back empty).
    Composition of T_enc (Marshal = reference encoder), the reference round trip and T_dec (Unmarshal = reference decoder). *)
 Theorem C03_marshal_unmarshal : forall s progs fuel idx fs un m,
-  gen_all s = GOk progs -> wf_schema_enc s = true -> rt_applies s = true -> nth_error s idx = Some m ->
+  gen_all s = GOk progs -> wf_schema_enc s = true -> rt_applies_at s idx = true -> nth_error s idx = Some m ->
   msg_ok fuel progs idx (Some (fs, un)) = true -> rt_ok fuel s idx fs un = true ->
   exists data, pico_marshal fuel progs idx (fs, un) = Ok data /\
                pico_unmarshal progs idx data (zero_fields s m, []) = (None, (norm_fields fuel s idx fs, un)).
-Proof. exact marshal_unmarshal. Qed.
+Proof. exact marshal_unmarshal_at. Qed.
 
 (* the schema-level side condition on the checked-in schemas (test.proto contains messages with custom types whose
    codecs are user code) *)
-Example C03_applies_to_checked_in : map rt_applies checked_in_schemas = [false; true; true; true; true].
+Example C03_applies_to_checked_in :
+  map (fun s => length (filter (rt_applies_at s) (seq 0 (length s)))) checked_in_schemas = [12; 8; 3; 5; 4]%nat.
 Proof. vm_compute. reflexivity. Qed.
 
 Example C03_nonvacuous : scalar_ok KFloat (VInt 2139095041) = true /\ scalar_ok KSint64 (VInt (-9223372036854775808)) = true /\
